@@ -18,6 +18,10 @@ type Config struct {
 	Resolve   func(method string) bool // does the assigner map this name to a handler?
 	InFlight  func(idText string) bool // is a call with this id text currently in flight?
 	Callback  func(idText string) bool // is a server callback with this id outstanding?
+	// MaybeCallback: a server callback with this id may be outstanding (the
+	// caller does not know exactly when): a member that is not request-shaped
+	// and bears such an id is consumed as its reply or answered - either way.
+	MaybeCallback func(idText string) bool
 }
 
 // Class of a member.
@@ -267,6 +271,9 @@ func classifyMember(cfg Config, raw []byte) Member {
 		}
 	}
 	_ = hasError
+	if cfg.AllowPush && cfg.MaybeCallback != nil && m.HasID && cfg.MaybeCallback(m.IDText) && !(m.Method != "" && !hasResult && !errorNonNull) {
+		m.DontCare = "may be taken for the reply to a server callback with this id"
+	}
 	if !hasVersion {
 		m.Defects = append(m.Defects, "version missing")
 	}
